@@ -21,6 +21,7 @@ type ListenerCase struct {
 	Drain     bool   `json:"drain"`      // the hand-off (backlog) channel is drained while dialing
 	During    int    `json:"during"`     // dialers racing Close
 	ConnClose string `json:"conn_close"` // accepted connections are closed before | after the listener's Close
+	Forced    string `json:"forced,omitempty"` // park-accepted: a serve loop is held right after Accept returned a connection while Close closes done (H2 point serve.accepted)
 	Jitter    uint64 `json:"jitter"`
 }
 
@@ -30,11 +31,41 @@ func genListener(r *hxlib.Rand) ListenerCase {
 		c.Before = 128 + r.Range(1, 3) // more than the hand-off queue holds
 		c.Drain = false
 		c.ConnClose = "before"
+	} else if r.Chance(1, 5) {
+		c.Forced = "park-accepted"
 	}
 	return c
 }
 
 var keepAlive []net.Conn
+
+// H2 schedule point of the listener: park the serve loop of one server right after Accept returned a connection.
+type srvPark struct {
+	arrived chan struct{}
+	release chan struct{}
+	once    sync.Once
+}
+
+var (
+	srvHookOnce sync.Once
+	srvParks    sync.Map // *qnet.TcpServer -> *srvPark
+)
+
+func installSrvHook() {
+	srvHookOnce.Do(func() {
+		qnet.VerifSetServerSchedHook(func(point string, s *qnet.TcpServer) {
+			if v, ok := srvParks.Load(s); ok && point == "serve.accepted" {
+				p := v.(*srvPark)
+				first := false
+				p.once.Do(func() { first = true })
+				if first {
+					close(p.arrived)
+					<-p.release
+				}
+			}
+		})
+	})
+}
 
 func freePort() string {
 	ln, err := net.Listen("tcp", "127.0.0.1:0")
@@ -67,6 +98,12 @@ func listenerOnce(c ListenerCase) (hard, soft [][2]string) {
 		return nil, nil // port raced away: not a case
 	}
 	backlog := srv.BacklogChan()
+	var park *srvPark
+	if c.Forced == "park-accepted" {
+		installSrvHook()
+		park = &srvPark{arrived: make(chan struct{}), release: make(chan struct{})}
+		defer srvParks.Delete(srv)
+	}
 	var eps []fatchoy.Endpoint
 	var raws []net.Conn
 	poisoned := false // a connection's Close panicked: touching the other connections could crash the process
@@ -127,8 +164,27 @@ func listenerOnce(c ListenerCase) (hard, soft [][2]string) {
 			}
 		}()
 	}
+	if park != nil {
+		// one more client: its serve loop is held right after Accept returned the connection
+		srvParks.Store(srv, park)
+		conn, err := dial()
+		if err != nil {
+			return nil, nil
+		}
+		raws = append(raws, conn)
+		select {
+		case <-park.arrived:
+		case <-time.After(hxconn.Deadline):
+			close(park.release)
+			return nil, [][2]string{{"listener:schedule-point-not-reached", "serve did not reach the schedule point serve.accepted"}}
+		}
+	}
 	done := make(chan string, 1)
 	go func() { done <- hxlib.Guard(func() { srv.Close() }) }()
+	if park != nil {
+		time.Sleep(20 * time.Millisecond) // steering only: Close has closed done and waits for the held loop
+		close(park.release)
+	}
 	select {
 	case p := <-done:
 		if p != "" {
@@ -144,15 +200,45 @@ func listenerOnce(c ListenerCase) (hard, soft [][2]string) {
 		// soft: some other process on this machine may have been given the same port meanwhile; believed only if it repeats (new port each time)
 		soft = append(soft, [2]string{"listener:accepts-after-close", "a dial after TcpServer.Close returned was accepted"})
 	}
-	// connections that were accepted while Close ran are still in the (now closed) hand-off channel
-	for range backlog {
-		// never started: nothing to join
+	// connections that were accepted while Close ran are still in the (now closed) hand-off channel: never started,
+	// nothing to join; the harness closes their sockets itself
+	for ep := range backlog {
+		if ep != nil && ep.RawConn() != nil {
+			ep.RawConn().Close()
+		}
 	}
 	if c.ConnClose == "after" {
 		closeEps()
 	}
 	if poisoned {
 		return
+	}
+	// every connection a client established was handed off (and is closed by now: by its owner or by the harness),
+	// or closed by the listener because it could not be handed off, or reset by the kernel with the listening socket:
+	// none may be left open and forgotten
+	dmu.Lock()
+	all := append([]net.Conn{}, raws...)
+	dmu.Unlock()
+	var lw sync.WaitGroup
+	var left int32
+	var lmu sync.Mutex
+	for _, cn := range all {
+		lw.Add(1)
+		go func(cn net.Conn) {
+			defer lw.Done()
+			cn.SetReadDeadline(time.Now().Add(hxconn.Deadline))
+			var b [1]byte
+			_, err := cn.Read(b[:])
+			if ne, ok := err.(net.Error); ok && ne.Timeout() {
+				lmu.Lock()
+				left++
+				lmu.Unlock()
+			}
+		}(cn)
+	}
+	lw.Wait()
+	if left > 0 {
+		soft = append(soft, [2]string{"listener:accepted-connection-neither-handed-off-nor-closed", fmt.Sprintf("%d of %d established connection(s) were neither handed off nor closed by the time TcpServer.Close had returned: their clients still see an open, silent connection %v later (a connection accept returned while done was being closed is dropped)", left, len(all), hxconn.Deadline)})
 	}
 	dmu.Lock()
 	for _, cn := range raws {
